@@ -29,6 +29,9 @@ type txnState struct {
 	result  string // "" (nothing told yet) | "committed <ts>" | "rolledback" | "unknown"
 	agg     bool   // inside aggressive locking
 	aggKeys int    // keys locked in the current aggressive-locking stage (as far as the API told)
+
+	lastFU      uint64 // for-update ts of the latest LockAt call
+	maxConflict uint64 // largest locked-with-conflict ts a LockAt call reported
 }
 
 func (t *txnState) outcome() string {
@@ -587,3 +590,126 @@ func (c *Client) GC(safePoint uint64) string {
 	c.callEnd(n, "gc", resOf(err), nil)
 	return Classify(err)
 }
+
+// ---- additions: for-update ts under the caller's control, snapshot re-pinning
+
+// LockAt = LockKeys with a for-update ts chosen by the scenario instead of a fresh one (TiDB takes the for-update ts of a
+// statement once and re-uses it for every lock call of the statement; a retried statement may or may not refresh it):
+// sel = "fresh" (a new timestamp, as Lock) | "start" (the start ts) | "last" (the for-update ts of the previous LockAt call,
+// start ts if none) | "conflict" (the largest locked-with-conflict ts reported so far, start ts if none); never below the
+// for-update ts of the previous LockAt call.
+// The trace line is `lock <keys> <flags> fu=<sel>:<ts>`; results as Lock.
+func (c *Client) LockAt(keys [][]byte, flags string, sel string) string {
+	c.track(keys...)
+	st := c.txn
+	fu := st.startTS
+	switch sel {
+	case "fresh":
+		ts, err := c.store.CurrentTimestamp(oracle.GlobalTxnScope)
+		if err != nil {
+			return Classify(err)
+		}
+		fu = ts
+	case "last":
+		if st.lastFU != 0 {
+			fu = st.lastFU
+		}
+	case "conflict":
+		if st.maxConflict != 0 {
+			fu = st.maxConflict
+		}
+	}
+	if fu < st.lastFU {
+		// a for-update ts never moves backwards (the caller takes it from the oracle or keeps the one it has)
+		fu = st.lastFU
+	}
+	n := c.callBegin("lock", HexList(keys), flags, "fu="+sel+":"+u(fu))
+	st.lastFU = fu
+	wait := int64(LockWaitMs)
+	if strings.Contains(flags, "n") {
+		wait = kv.LockNoWait
+	}
+	lc := kv.NewLockCtx(fu, wait, time.Now())
+	if strings.Contains(flags, "r") {
+		lc.InitReturnValues(len(keys))
+	}
+	if strings.Contains(flags, "c") {
+		lc.InitCheckExistence(len(keys))
+	}
+	if strings.Contains(flags, "e") {
+		lc.LockOnlyIfExists = true
+	}
+	err := st.txn.LockKeys(context.Background(), lc, keys...)
+	if lc.MaxLockedWithConflictTS > st.maxConflict {
+		st.maxConflict = lc.MaxLockedWithConflictTS
+	}
+	if err != nil {
+		c.callEnd(n, "lock", errRes(err), nil)
+		return Classify(err)
+	}
+	var out []string
+	ks := make([]string, 0, len(lc.Values))
+	for k := range lc.Values {
+		ks = append(ks, k)
+	}
+	sort.Strings(ks)
+	for _, k := range ks {
+		rv := lc.Values[k]
+		if !(lc.ReturnValues || lc.CheckExistence) && rv.LockedWithConflictTS == 0 {
+			continue
+		}
+		var v string
+		switch {
+		case rv.AlreadyLocked:
+			v = "?"
+		case lc.ReturnValues:
+			v = Hx(rv.Value)
+		case rv.Exists:
+			v = "+"
+		default:
+			v = "-"
+		}
+		if rv.LockedWithConflictTS != 0 {
+			v += "!" + u(rv.LockedWithConflictTS)
+			if rv.LockedWithConflictTS > st.maxConflict {
+				st.maxConflict = rv.LockedWithConflictTS
+			}
+		}
+		out = append(out, Hx([]byte(k))+"="+v)
+	}
+	c.callEnd(n, "lock", "ok "+ShowList(out), func() {
+		if st.agg {
+			st.aggKeys += len(keys)
+		}
+	})
+	return "ok"
+}
+
+// MaxConflictTS returns the largest locked-with-conflict ts a LockAt call of the current transaction reported (0 = none).
+func (c *Client) MaxConflictTS() uint64 {
+	if c.txn == nil {
+		return 0
+	}
+	return c.txn.maxConflict
+}
+
+// StartTS returns the start ts of the current transaction (0 = none).
+func (c *Client) StartTS() uint64 {
+	if c.txn == nil {
+		return 0
+	}
+	return c.txn.startTS
+}
+
+// SetTS = KVSnapshot.SetSnapshotTS on the long-lived snapshot object (`snapsetts <old ts> <new ts>`, end ok): every later
+// snap* call of this handle carries the new ts.
+func (s *Snap) SetTS(ts uint64) {
+	c := s.c
+	n := c.callBegin("snapsetts", u(s.ts), u(ts))
+	s.s.SetSnapshotTS(ts)
+	s.ts = ts
+	c.callEnd(n, "snapsetts", "ok", nil)
+}
+
+// TS returns the timestamp in force.
+func (s *Snap) TS() uint64 { return s.ts }
